@@ -43,6 +43,8 @@ ASSUMPTIONS = [
     "flock(2) is exclusive per open file description and released when the descriptor is closed or the process dies; open(O_CREAT) "
     "and unlink are atomic (local POSIX file system)",
     "a yield point before each file-system call does not change the locker's behaviour (calls are the only shared-state accesses)",
+    "the lock descriptor is close-on-exec, i.e. not inherited by target commands (not in the model; tested by the CLI scenario 'holder "
+    "killed while a target command runs')",
     "processes are killed only between calls (a kill inside a system call is equivalent to before or after it for these atomic calls)",
 ]
 
@@ -340,6 +342,8 @@ def run(ctx):
     for rec in recs[2:5]:
         ctx.sample({"n": rec["n"], "pre": rec["pre"], "events": rec["events"], "final": rec["obs"][-1], "progress": rec["liveness"]})
     cli_smoke(ctx)
+    cli_killed_while_command_runs(ctx)
+    ctx.violations.sort(key=lambda v: not v[1])      # violations with a concrete failing input first
 
 
 def cli_smoke(ctx):
@@ -391,6 +395,77 @@ def cli_smoke(ctx):
     if not ok:
         ctx.violation("a grog build started after the previous one was killed (SIGKILL) did not complete",
                       {"kind": "oracle", "oracle": "CLI: stale lock never blocks", "output": out[-1500:]}, signature="cli:stale-lock-blocks")
+
+
+def cli_killed_while_command_runs(ctx):
+    """The holder is killed (SIGKILL) *while one of its target commands is running*: the command survives as an orphan. The lock
+    must die with the holder, not live on in the orphan (which it does if the lock descriptor is inherited by target commands)."""
+    import signal, time
+    grog = ctx.grog_binary()
+    if not grog:
+        return
+    ws = ctx.scratch("cli2/ws")
+    root = ctx.scratch("cli2/root")
+    marker = os.path.join(ctx.scratch("cli2"), "trace-orphan")
+    open(os.path.join(ws, "grog.toml"), "w").write("")
+    json.dump({"targets": [{"name": "long", "command": f"echo B >> {marker}; sleep 45.0173; echo E >> {marker}", "tags": ["no-cache"]},
+                           {"name": "quick", "command": f"echo Q >> {marker}", "tags": ["no-cache"]}]},
+              open(os.path.join(ws, "BUILD.json"), "w"))
+    env = dict(os.environ, GROG_ROOT=root, HOME=ctx.scratch("cli2/home"))
+    h = subprocess.Popen([grog, "build", "//:long"], cwd=ws, env=env, stdout=subprocess.DEVNULL, stderr=subprocess.DEVNULL, start_new_session=True)
+    started = False
+    for _ in range(400):
+        if os.path.exists(marker) and os.path.getsize(marker) > 0:
+            started = True
+            break
+        time.sleep(0.05)
+    res = {"command_started": started}
+    try:
+        if not started:
+            ctx.notes.append("cli scenario 'holder killed while a command runs' inconclusive: the command did not start within 20 s")
+            return
+        h.send_signal(signal.SIGKILL)
+        h.wait()
+        orphans = []
+        for pid in os.listdir("/proc"):
+            if pid.isdigit():
+                try:
+                    if marker.encode() in open(f"/proc/{pid}/cmdline", "rb").read():
+                        orphans.append(int(pid))
+                except OSError:
+                    pass
+        res["orphaned_command_processes"] = len(orphans)
+        t0 = time.time()
+        w = subprocess.Popen([grog, "build", "//:quick"], cwd=ws, env=env, stdout=subprocess.PIPE, stderr=subprocess.STDOUT)
+        try:
+            out = w.communicate(timeout=20)[0].decode(errors="replace")
+            ok = w.returncode == 0
+        except subprocess.TimeoutExpired:
+            w.kill()
+            out = w.communicate()[0].decode(errors="replace")
+            ok = False
+        res.update({"second_build_ok": ok, "second_build_s": round(time.time() - t0, 2)})
+        if not ok:
+            ctx.violation("grog build is killed (SIGKILL) while a target command runs; the command lives on as an orphan and a new grog build does not "
+                          "get the workspace lock within 20 s: the dead build's lock still blocks",
+                          {"kind": "oracle", "oracle": "CLI: a lock left behind by a dead process never blocks (holder killed while a command runs)",
+                           "scenario": ["grog build //:long   (command: sleep 45.0173)", "kill -9 <grog> once the command has started", "grog build //:quick   (20 s bound)"],
+                           "orphaned_command_processes": len(orphans), "output_of_second_build": out[-1500:]},
+                          signature="cli:dead-holder-lock-survives-in-orphaned-command")
+    finally:
+        ctx.coverage.setdefault("cli_smoke", {})["holder_killed_while_command_runs"] = res
+        for pid in os.listdir("/proc"):
+            if pid.isdigit():
+                try:
+                    cl = open(f"/proc/{pid}/cmdline", "rb").read()
+                    if marker.encode() in cl or b"45.0173" in cl:
+                        os.kill(int(pid), signal.SIGKILL)
+                except OSError:
+                    pass
+        try:
+            os.killpg(h.pid, signal.SIGKILL)
+        except OSError:
+            pass
 
 
 def replay(ctx, rep):
